@@ -312,6 +312,7 @@ def run(ctx):
                        "cannot be converted by NumPy or JAX (RuntimeError: Can't call numpy() on Tensor that requires grad)")
         ctx.floor("torch flow output methods", n_m, 5)
     cache_rule(ctx)
+    evidence_dtype_rule(ctx)
 
 
 STATE_READERS = {"default_dtype", "get_default_dtype", "default_device", "get_default_device"}
@@ -348,6 +349,35 @@ def cache_rule(ctx):
                 "sample sets built without an explicit dtype are cast to the old width") if bad else "")
 
 
+def evidence_dtype_rule(ctx):
+    """C15.evid: the evidence stored on the population an SMC run returns is rebuilt from the recorded per-step series with
+    `asarray(series, xp)`.  Its precision is the population's only if the series holds backend scalars of that precision, or the
+    rebuild names the dtype: values narrowed to Python floats come back in the namespace's *default* width (float64 for a float32
+    NumPy/JAX run, float32 for a float64 torch run)."""
+    from .smcloop import SMC, history_appends
+    repo = ctx.repo
+    smc = repo.cls(SMC)
+    sample = smc.methods["sample"]
+    rebuilt = {}
+    for n in walk_no_nested(sample.node):
+        if isinstance(n, ast.Call) and ((isinstance(n.func, ast.Name) and n.func.id == "asarray") or (isinstance(n.func, ast.Attribute) and n.func.attr == "asarray")) and n.args:
+            a0 = n.args[0]
+            if isinstance(a0, ast.Attribute) and isinstance(a0.value, ast.Attribute) and a0.value.attr == "history":
+                rebuilt[a0.attr] = any(k.arg == "dtype" for k in n.keywords)
+    ctx.floor("history series rebuilt into arrays for the returned evidence", len(rebuilt), 2)
+    narrowed = {}
+    for series, call in history_appends(sample, repo, smc):
+        if series in rebuilt and call.args:
+            v = call.args[-1]
+            if isinstance(v, ast.Call) and ((isinstance(v.func, ast.Name) and v.func.id in ("float", "int")) or (isinstance(v.func, ast.Attribute) and v.func.attr in ("item", "tolist"))):
+                narrowed[series] = call
+    for series, has_dtype in sorted(rebuilt.items()):
+        bad = series in narrowed and not has_dtype
+        ctx.decide(not bad, "C15.evid", sample.ident, loc_of(sample, narrowed.get(series)), f"history.{series}: recorded as backend scalars (or rebuilt with an explicit dtype), so the returned evidence keeps the population's precision",
+                   f"history.{series} receives values narrowed to Python scalars and is rebuilt with asarray(..., xp) without a dtype: the evidence of the returned population comes back in "
+                   "the namespace's default width, not the requested precision", disc=series)
+
+
 def _rank(m, n):
     calls = sorted((x.lineno, x.col_offset) for x in ast.walk(m.node) if isinstance(x, ast.Call))
     return calls.index((n.lineno, n.col_offset))
@@ -368,6 +398,7 @@ MUTANTS = [
     M("array_to_namespace into numpy always", _S, "x = asarray(x, self.xp, **kwargs)", "x = asarray(x, np, **kwargs)", "C15.a2n"),
 ]
 MUTANTS += [
+    M("evidence ratios recorded as Python floats", "src/aspire/samplers/smc/base.py", "self.history.log_norm_ratio.append(log_evidence_ratio)", "self.history.log_norm_ratio.append(float(log_evidence_ratio))", "C15.evid"),
     M("namespace default dtype memoised", _S, "            self.dtype = default_dtype(self.xp)\n", "            self.dtype = _cached_default(self.xp)\n", "C15.cache",
       more=[("@dataclass\nclass BaseSamples:", "import functools\n\n\n@functools.lru_cache(maxsize=None)\ndef _cached_default(xp):\n    return default_dtype(xp)\n\n\n@dataclass\nclass BaseSamples:")]),
     M("conversion keeps the likelihood only when it is unset", _S, "log_likelihood=asarray(self.log_likelihood, xp, dtype=dtype)\n            if self.log_likelihood is not None\n            else None,", "log_likelihood=asarray(self.log_likelihood, xp, dtype=dtype)\n            if self.log_likelihood is None\n            else None,", "C15.carry"),
